@@ -830,11 +830,17 @@ static char *detect_include_guard(Token *tok) {
       continue;
     }
 
-    if (equal(tok->next, "endif") && tok->next->next->kind == TK_EOF)
-      return macro;
+    // This is a directive of the guard itself (nested conditionals are
+    // skipped below). The guard's #endif must end the file, and the
+    // guard must not have #elif or #else groups.
+    if (equal(tok->next, "endif"))
+      return tok->next->next->kind == TK_EOF ? macro : NULL;
 
-    if (equal(tok, "if") || equal(tok, "ifdef") || equal(tok, "ifndef"))
-      tok = skip_cond_incl(tok->next);
+    if (equal(tok->next, "elif") || equal(tok->next, "else"))
+      return NULL;
+
+    if (equal(tok->next, "if") || equal(tok->next, "ifdef") || equal(tok->next, "ifndef"))
+      tok = skip_cond_incl2(tok->next->next);
     else
       tok = tok->next;
   }
